@@ -154,11 +154,11 @@ def rand_prop(rng, name=None):
     if ty == T_STRING:
         return Prop(nm, ty, rand_string(rng))
     v = rand_value(rng, ty)
-    if ty in (9, 0x19):
-        # float32 property: avoid NaNs (float -> double widening may quieten a signalling NaN)
-        f = struct.unpack("<f", v)[0]
-        if f != f:
-            v = struct.pack("<f", rng.choice([0.0, -0.0, 1.5, float("inf"), -3.25e-40, 1e38]))
+    if ty in (9, 0x19) and rng.random() < 0.15:
+        # float32 property: NaNs, signalling ones included (widening to double quiets them and keeps the payload;
+        # Model/Reader.v f32_to_f64_bits says so), infinities, denormals
+        v = bytes.fromhex(rng.choice(["0100807f", "0000c07f", "0000a0ff", "ffffbf7f", "0000807f", "000080ff",
+                                      "01000000", "ffff7f00", "00000080"]))
     return Prop(nm, ty, v)
 
 
